@@ -875,7 +875,7 @@ Proof.
     - destruct (N.eqb_spec (re_id a) (re_id e)) as [E|E].
       + exfalso. apply Hx. rewrite E. apply in_map. exact Hin.
       + apply IH; assumption. }
-  rewrite (savelog_complete_threads pname pid _ k (mkThread (match re_name en with Some n => n | None => idtext (re_id en) end) (re_events en))).
+  rewrite (savelog_complete_threads pname pid _ k (mkThread (display_name idtext en) (re_events en))).
   - cbn [t_events]. apply Hget. eapply nth_error_In. exact Hk.
   - unfold reg_threads. apply Forall_forall. intros t Ht. apply in_map_iff in Ht. destruct Ht as [e [Et Hin]].
     subst t. unfold thread_nested. cbn [t_events]. rewrite (Hget e Hin). apply Hn.
@@ -978,3 +978,32 @@ Proof.
   rewrite (save_sees_everything_so_far (h1 ++ HSave :: h2) h3 id).
   rewrite ops_of_app, recs_of_app. cbn [ops_of flat_map app]. reflexivity.
 Qed.
+
+(* ================================================================== thread names are attributes *)
+Lemma recs_of_names id ops l : (forall o, In o l -> match o with RRec _ _ => False | _ => True end) -> recs_of id (ops ++ l) = recs_of id ops.
+Proof.
+  intro H. rewrite recs_of_app. replace (recs_of id l) with (@nil tev); [apply app_nil_r|].
+  induction l as [|o l IH]; [reflexivity|]. unfold recs_of in *. cbn [flat_map].
+  pose proof (H o (or_introl eq_refl)) as Ho. destruct o; try contradiction; cbn [app]; apply IH; intros o' Hin; apply H; right; exact Hin.
+Qed.
+
+(* events of distinct threads never merge, whatever their names: after any history, and after any further setThreadName
+   calls (two threads given the same name, a name set to the empty string ...), each id still has exactly its own events *)
+Lemma names_never_merge ops names id :
+  reg_evs (reg_run (ops ++ map (fun p => RName (fst p) (snd p)) names)) id = recs_of id ops.
+Proof.
+  rewrite reg_events_of. apply recs_of_names. intros o Hin. apply in_map_iff in Hin. destruct Hin as [p [E _]]. subst o. exact I.
+Qed.
+
+(* ================================================================== texts are written verbatim *)
+(* without the text_ok hypothesis the log need not be JSON: one thread whose NAME contains a double quote (character codes 97 34 98: a, double quote, b),
+   or one marker whose name does; saveLog writes the text as it is and the recogniser rejects the result *)
+Lemma savelog_unescaped_text_witness :
+  let q := [97; 34; 98] in
+  let ev := mkEv KMarker [111; 107] None 0 1000 [] in
+  json_array (saveLog None 1 (threads_of [(q, [ev])])) = false /\
+  json_array (saveLog None 1 (threads_of [([116], [mkEv KMarker q None 0 1000 []])])) = false /\
+  json_array (saveLog (Some q) 1 (threads_of [([116], [ev])])) = false /\
+  json_array (saveLog None 1 (threads_of [([116], [mkEv KMarker [111; 107] (Some q) 0 1000 []])])) = false /\
+  json_array (saveLog None 1 (threads_of [([116], [ev])])) = true.
+Proof. vm_compute. repeat split; reflexivity. Qed.
